@@ -12,7 +12,7 @@ import (
 func init() { Registry["C16"] = checkC16 }
 
 func checkC16(p *core.Prog, r *core.Report) {
-	r.Explanation = "Decides structural necessary conditions of state-preserving compaction: (R1) the replacement snapshot is published (rewrite.aof.tmp renamed into place) before any compaction input is removed, and during a compaction files are removed only in its commit step; (R2) compactions are serialised by a test-and-set of isRewriting under the Aof mutex, cleared again on every exit (deferred function); (R3) an append file becomes a compaction input only if its index is strictly behind the current append file's (wrap-aware); (R4) the compaction callback drops a record only when its database is gone or LockDB.HasLock says the hold no longer exists - every other record is appended, with its value blob iff it announces one; (R5) the commit step runs only after the load returned no error, and the temporary file is flushed and closed before that; (R6) replay quiescence - the condition the start-up compaction waits for - is decided (flush waiters released, WaitFlushAofChannel returning without waiting) only on paths that read the replay channels' queue counters, because a channel that was handed records but has not woken up yet is not in the active count (a real defect found by this rule's subject was repaired); (R7) every list of log files built from FindAofFiles puts the snapshot before the append files (the list is the read and re-write order). (R8) LockDB.HasLock, the classifier compaction uses, answers \"gone\" for a record that is not a LOCK record only when the key has no manager, nothing is held, or no hold with the record's id exists. NOT decided: equality of the recovered state before/after, appends racing a compaction, every intermediate directory image."
+	r.Explanation = "Decides structural necessary conditions of state-preserving compaction: (R1) the replacement snapshot is published (rewrite.aof.tmp renamed into place) before any compaction input is removed, and during a compaction files are removed only in its commit step; (R2) compactions are serialised by a test-and-set of isRewriting under the Aof mutex, cleared again on every exit (deferred function); (R3) an append file becomes a compaction input only if its index is strictly behind the current append file's (wrap-aware); (R4) the compaction callback drops a record only when its database is gone or LockDB.HasLock says the hold no longer exists - every other record is appended, with its value blob iff it announces one; (R5) the commit step runs only after the load returned no error, and the temporary file is flushed and closed before that; (R6) replay quiescence - the condition the start-up compaction waits for - is decided (flush waiters released, WaitFlushAofChannel returning without waiting) only on paths that read the replay channels' queue counters, because a channel that was handed records but has not woken up yet is not in the active count (a real defect found by this rule's subject was repaired); (R7) every list of log files built from FindAofFiles puts the snapshot before the append files (the list is the read and re-write order). (R8) LockDB.HasLock, the classifier compaction uses, answers \"gone\" for a record that is not a LOCK record only when the key has no manager, nothing is held, or no hold with the record's id exists. (R9) a compaction computes its input list once, before the load; the commit does not recompute it. NOT decided: equality of the recovered state before/after, appends racing a compaction, every intermediate directory image."
 	r.Assumptions = []string{"Go type checker, go/ssa and VTA call graph are correct for /repo", "os.Rename replaces its target atomically"}
 	c16R1(p, r)
 	c16R2(p, r)
@@ -22,6 +22,7 @@ func checkC16(p *core.Prog, r *core.Report) {
 	c16R6(p, r)
 	logFileOrderRule(p, r, "C16/R7")
 	c16R8(p, r)
+	c16R9(p, r)
 }
 
 // reachesRemove: does fn (transitively, by static calls in the module) call os.Remove / os.RemoveAll?
@@ -694,5 +695,50 @@ func c16R8(p *core.Prog, r *core.Report) {
 	}
 	if n == 0 {
 		r.Fail("C16/R8: HasLock has no false return")
+	}
+}
+
+// c16R9: the commit retires exactly the files the compaction has read. The
+// list is computed once (findRewriteAofFiles) before the load; recomputing it
+// afterwards - the current append file index may have moved on in the
+// meantime - makes the commit delete append files none of whose records
+// reached the snapshot.
+func c16R9(p *core.Prog, r *core.Report) {
+	const rule = "C16/R9"
+	r.Rule(rule, "a compaction computes its list of input files once, before it loads them; nothing after the load recomputes the list that the commit removes", 1)
+	rw := mustFunc(p, r, "server.(*Aof).rewriteAofFiles")
+	if rw == nil {
+		return
+	}
+	commit := p.Func("server.(*Aof).clearRewriteAofFiles")
+	n := 0
+	bad := false
+	ex := core.NewExplorer(p, core.Hooks{
+		Inline: func(x *core.X, callee *ssa.Function) bool { return commit != nil && callee == commit },
+		Instr: func(x *core.X) {
+			if calleeIs(x.Ins, "Aof", "loadRewriteAofFiles") {
+				x.Set("loaded", "1")
+				return
+			}
+			if !calleeIs(x.Ins, "Aof", "findRewriteAofFiles") {
+				return
+			}
+			n++
+			key := siteKey(p, x.Ins)
+			if x.Get("loaded") == "1" {
+				bad = true
+				r.Violate(rule, key, x.Pos(), "the list of compaction inputs is computed again after the inputs were loaded: an append file rotated out while the compaction was running enters the list and is removed by the commit although none of its records reached the snapshot", x.St.Trace)
+			} else if !bad {
+				r.Hold(rule, key, x.Pos(), "computed before the load")
+			}
+		},
+	})
+	ex.NoHist = true
+	ex.Run(rw, nil)
+	if ex.Imprecise != "" {
+		r.Fail("C16/R9: %s", ex.Imprecise)
+	}
+	if n == 0 {
+		r.Fail("C16/R9: rewriteAofFiles never computes its input list")
 	}
 }
